@@ -396,6 +396,41 @@ func workC14Graphs(w *run.W) {
 				w.Violation("C14", verdict+"-target-location", fmt.Sprintf("%q located at %s:%d, the INCLUDE is at %s:%d\n%s", b.Err.Msg, b.Err.File, b.Err.Line, vfile, vline, showProject(pr)), detail)
 			}
 		}
+		// the same project opened through a relative root path (bare name from its directory; path from the parent
+		// directory): same verdict, same file, same line
+		if b.Panic == nil {
+			for _, sp := range [][2]string{{dir, nodes[0]}, {filepath.Dir(dir), filepath.Base(dir) + "/" + nodes[0]}} {
+				if err := os.Chdir(sp[0]); err != nil {
+					continue
+				}
+				b2 := impl.BuildDisk(sp[1])
+				os.Chdir("/")
+				w.Count("relative_root_builds", 1)
+				cls := func(e *impl.ErrObs, normalised bool) string {
+					if e == nil {
+						return "accept"
+					}
+					f := e.File
+					if normalised {
+						f = filepath.Join(dir, f)
+					} else if !filepath.IsAbs(f) {
+						f = filepath.Join(sp[0], f)
+					}
+					m := e.Msg
+					for _, k := range []string{"recursion", "does not exist", "is a directory"} {
+						if strings.Contains(m, k) {
+							m = k
+						}
+					}
+					return fmt.Sprintf("%s at %s:%d", m, relTo(dir, f), e.Line)
+				}
+				if b2.Panic != nil {
+					w.Violation("C14", b2.Panic.Key(), "include graph opened through a relative root path panics: "+b2.Panic.Value+"\n"+showProject(pr), detail)
+				} else if cls(b.Err, true) != cls(b2.Err, false) {
+					w.Violation("C14", "relative-root-differs", fmt.Sprintf("root opened as %q from %s: %s; opened by absolute path: %s\n%s", sp[1], map[bool]string{true: "its directory", false: "the parent directory"}[sp[0] == dir], cls(b2.Err, false), cls(b.Err, true), showProject(pr)), detail)
+				}
+			}
+		}
 		if c == 4321 {
 			w.Sample(map[string]any{"include_graph": pr.Files, "reference_verdict": verdict})
 		}
